@@ -221,9 +221,9 @@ func (w *World) Faucet(addr sdk.AccAddress, coins sdk.Coins) {
 // continue); otherwise it does not return (Fail aborts the case).
 func (w *World) Violation(property, key, format string, args ...interface{}) bool {
 	msg := fmt.Sprintf(format, args...)
-	if IsKnownOpen(property, key) {
-		G.ExcludedKnown(key)
-		w.Flags["known:"+key] = true
+	if pat := MatchKnownOpen(property, key); pat != "" {
+		G.ExcludedKnown(pat)
+		w.Flags["known:"+pat] = true
 		return true
 	}
 	replay := w.SaveTrace(property, key)
